@@ -25,25 +25,16 @@ def d4_per_datum_chunking_only_under_concat(ctx, repo):
     f = repo.func(CO, "ConsolidatorBase.chunks")
     sh = repo.func(CO, "ConsolidatorBase.shape")
     # premise, decided on the returned expression (temporaries substituted, guard clauses folded) for every case of the two conditions
-    e = q.return_expression(sh.node)
-
-    def leaf(e, env):
-        while isinstance(e, ast.IfExp):
-            t = booleval.ev(e.test, env)
-            if t is None:
-                return None
-            e = e.body if t else e.orelse
-        return e
-    ok = e is not None
-    if ok:
-        for concat in (True, False):
-            for nonscalar in (True, False):
-                env = {"self.join_method == 'concat'": concat, "self.join_method != 'concat'": not concat, "self.join_method == 'stack'": not concat,
-                       "len(self.datum_shape) > 0": nonscalar, "len(self.datum_shape) == 0": not nonscalar, "self.datum_shape": nonscalar, "len(self.datum_shape)": nonscalar}
-                lf = leaf(e, env)
-                txt = A.norm(lf) if lf is not None else ""
-                want = "(self._num_rows * self.datum_shape[0], *self.datum_shape[1:])" if (concat and nonscalar) else "(self._num_rows, *self.datum_shape)"
-                ok = ok and txt == want
+    ok = True
+    for concat in (True, False):
+        for nonscalar in (True, False):
+            env = {"self.join_method == 'concat'": concat, "self.join_method != 'concat'": not concat, "self.join_method == 'stack'": not concat,
+                   "len(self.datum_shape) > 0": nonscalar, "len(self.datum_shape) == 0": not nonscalar, "self.datum_shape": nonscalar, "len(self.datum_shape)": nonscalar}
+            flat_ = list(A.walk_stmts(q.specialise(A.body(sh.node), env)))
+            ret_ = next((x for x in flat_ if isinstance(x, ast.Return) and x.value is not None), None)
+            txt = A.norm(q.straight_line_value(flat_[:flat_.index(ret_)], ret_.value)) if ret_ is not None else ""
+            want = "(self._num_rows * self.datum_shape[0], *self.datum_shape[1:])" if (concat and nonscalar) else "(self._num_rows, *self.datum_shape)"
+            ok = ok and txt == want
     ctx.ob(rule, cname(sh, None, "shape: leading dimension is _num_rows * datum_shape[0] under concat, _num_rows otherwise"), ok,
            "" if ok else "shape changed: the rule's premise no longer holds", where=where(sh, sh.node))
     # the per-datum chunking site: a summand helper called with repeat=<_num_rows> (whatever the helper is called)
@@ -206,6 +197,18 @@ def run(ctx):
                 pair_src = "SORTED"
         elif A.call_name(it) in ("pairwise", "itertools.pairwise") and len(it.args) == 1 and A.norm(resolve(nid, it.args[0])) == "SORTED":
             pair_src = "SORTED"
+        if pair_src is None and A.call_name(it) == "range" and len(it.args) == 2 and A.norm(it.args[0]) == "1" and isinstance(lp.target, ast.Name) \
+                and isinstance(it.args[1], ast.Call) and A.call_name(it.args[1]) == "len" and A.norm(resolve(nid, it.args[1].args[0])) == "SORTED":
+            # index form: for i in range(1, len(S)): S[i - 1] ... S[i]
+            i_ = lp.target.id
+            seq_ = A.norm(it.args[1].args[0])
+            t = [x for x in lp.body if isinstance(x, ast.If)]
+            good = bool(t) and A.norm(t[0].test) in (f"{seq_}[{i_} - 1]['indices']['stop'] != {seq_}[{i_}]['indices']['start']",
+                                                     f"{seq_}[{i_}]['indices']['start'] != {seq_}[{i_} - 1]['indices']['stop']") \
+                and any(isinstance(x, ast.Raise) and "ValueError" in A.norm(x) for x in t[0].body)
+            if good and q.dominated(g, rets[0], lambda n, lp=lp: n.kind == "for" and n.stmt is lp) is None:
+                ok = True
+            continue
         if pair_src is None or not (isinstance(lp.target, ast.Tuple) and len(lp.target.elts) == 2 and all(isinstance(e_, ast.Name) for e_ in lp.target.elts)):
             continue
         d1, d2 = (e_.id for e_ in lp.target.elts)
